@@ -765,6 +765,22 @@ var unsignedSubExceptions = map[string]string{
 // splitPhiCases splits a value into its phi alternatives (recursively), each with the block it comes from and the
 // branch fact of the incoming edge.
 func splitPhiCases(v ssa.Value, blk *ssa.BasicBlock, extra []Fact, depth int) []retCase {
+	if depth <= 5 {
+		// a field of a small local struct that is assembled in several places (the result struct of an inlined helper
+		// with several returns): one alternative per place, under the facts of the block that stored it
+		if cs := localStructFieldCases(stripConv(v)); len(cs) > 0 {
+			var out []retCase
+			for _, c := range cs {
+				path := append(append([]Fact{}, extra...), c.extra...)
+				b := c.block
+				if len(cs) == 1 {
+					b = blk // a single assembly point: the facts of the use site stay the relevant ones
+				}
+				out = append(out, splitPhiCases(c.val, b, path, depth+1)...)
+			}
+			return out
+		}
+	}
 	phi, ok := v.(*ssa.Phi)
 	if !ok || depth > 5 {
 		return []retCase{{val: v, block: blk, extra: extra}}
